@@ -52,8 +52,8 @@ CLAUSES = {
 PARALLEL = True
 CASE_TIMEOUT = 120     # generous: on a loaded machine a forked worker's first case was measured at 6 s wall for 0.4 s CPU
 LEVEL_NOTE = ("exhaustive sub-domains: quick = every op sequence of length 3 over the 9-letter alphabet _ALPHA for 6 class/value "
-              "configurations + length 4 over _ALPHA7 for 4 configurations; thorough = length 4 over _ALPHA, length 5 over _ALPHA7 "
-              "(6 configurations), length 7 over {acqT,acqN,rel,fire,raceRel} for Semaphore(1) and Lock")
+              "configurations + length 4 over _ALPHA7 for 4 configurations; thorough = length 4 over _ALPHA (6 configurations), length 5 "
+              "over _ALPHA7 (3 configurations), length 6 over {acqT,acqN,rel,fire,raceRel} for Semaphore(1) and Lock")
 
 # ------------------------------------------------------------------------------------------ shared rig
 
@@ -432,9 +432,9 @@ def gen_cases(rng, tier):
         n_rand = 4000
     elif tier == "thorough":
         yield from _enum_cases(4)
-        yield from _enum_cases(5, alpha=_ALPHA7)
-        yield from _enum_cases(7, alpha=["acqT", "acqN", "rel", "fire", "raceRel"], configs=[("sem", 1), ("lock", 1)])
-        n_rand = 60000
+        yield from _enum_cases(5, alpha=_ALPHA7, configs=[("sem", 1), ("bounded", 2), ("lock", 1)])
+        yield from _enum_cases(6, alpha=["acqT", "acqN", "rel", "fire", "raceRel"], configs=[("sem", 1), ("lock", 1)])
+        n_rand = 30000
     else:
         n_rand = 4000
     for _ in range(n_rand):
